@@ -28,6 +28,9 @@ struct Input {
     dump: Arc<Vec<u8>>,
     /// code_file -> Some(symbol text) | None (NotFound)
     syms: Arc<HashMap<String, Option<String>>>,
+    /// prefix of the signature of any output difference found on this input (empty for most): names the input
+    /// class when the class itself is what a recorded finding is about
+    tag: &'static str,
 }
 
 fn limits_text(rows: usize) -> String {
@@ -65,7 +68,7 @@ fn build_arm64(name: &'static str, with_limits: bool, alias: bool, missing: bool
     if with_limits {
         d = d.set_linux_proc_limits(limits_text(16).as_bytes());
     }
-    Input { name, dump: Arc::new(d.finish().unwrap()), syms: Arc::new(syms) }
+    Input { name, dump: Arc::new(d.finish().unwrap()), syms: Arc::new(syms), tag: "" }
 }
 
 fn build_amd64(name: &'static str) -> Input {
@@ -96,7 +99,7 @@ fn build_amd64(name: &'static str) -> Input {
         let text = format!("MODULE Linux x86_64 000000000000000000000000000000000 lib{t}.so\nFUNC 1000 100 0 f{t}\nFUNC 2000 100 0 g{t}\nPUBLIC 3000 0 p{t}\nSTACK CFI INIT 1000 100 .cfa: $rsp 16 + .ra: .cfa -8 + ^ $rbx: .cfa -16 + ^ $r12: 12 $r13: 13 $r14: 14 $r15: 15 $rbp: 5\n");
         syms.insert(format!("/usr/lib/lib{t}.so"), Some(text));
     }
-    Input { name, dump: Arc::new(d.finish().unwrap()), syms: Arc::new(syms) }
+    Input { name, dump: Arc::new(d.finish().unwrap()), syms: Arc::new(syms), tag: "" }
 }
 
 /// 3 threads over 4 modules among which two pairs are easy to confuse: m1 / M1 differ only in
@@ -139,12 +142,12 @@ fn build_confusable(name: &'static str) -> Input {
         // M1 has no symbols at all, twin_b's are corrupt: the modules end with different stats
         syms.insert(n.to_string(), match i { 1 => None, 4 => Some("MODULE Linux arm64 0 x\ncorrupt line\n".to_string()), _ => Some(text) });
     }
-    Input { name, dump: Arc::new(d.finish().unwrap()), syms: Arc::new(syms) }
+    Input { name, dump: Arc::new(d.finish().unwrap()), syms: Arc::new(syms), tag: "" }
 }
 
 /// Two builds of one file loaded at once (same name, same debug file, different debug id — a DLL replaced on
 /// disk while the process runs), each reached by a different thread only after a first lookup completed.
-fn build_two_builds(name: &'static str) -> Input {
+fn build_two_builds(name: &'static str, second_has_symbols: bool) -> Input {
     let e = Endian::Little;
     let mut d = synth::SynthMinidump::with_endian(e);
     d = d.add_system_info(synth::SystemInfo::new(e).set_processor_architecture(md::ProcessorArchitecture::PROCESSOR_ARCHITECTURE_ARM64 as u16).set_platform_id(md::PlatformId::Linux as u32));
@@ -171,18 +174,21 @@ fn build_two_builds(name: &'static str) -> Input {
             module = module.cv_record(&cv);
             d = d.add(cv);
             let id = format!("{guid_first:08X}F00DBEEF01020304050607081");
-            syms.insert(format!("{n}|{id}"), Some(text(if i == 2 { "old_build" } else { "new_build" })));
+            if i == 2 || second_has_symbols {
+                syms.insert(format!("{n}|{id}"), Some(text(if i == 2 { "old_build" } else { "new_build" })));
+            }
         } else {
             syms.insert(n.to_string(), Some(text(if i == 0 { "first" } else { "second" })));
         }
         d = d.add_module(module).add(mname);
     }
-    Input { name, dump: Arc::new(d.finish().unwrap()), syms: Arc::new(syms) }
+    Input { name, dump: Arc::new(d.finish().unwrap()), syms: Arc::new(syms), tag: if second_has_symbols { "" } else { "modules-sharing-a-file-name-with-different-symbol-outcomes:" } }
 }
 
 fn inputs() -> Vec<Input> {
     vec![
-        build_two_builds("arm64-two-builds-of-one-file"),
+        build_two_builds("arm64-two-builds-of-one-file", true),
+        build_two_builds("arm64-two-builds-of-one-file-one-without-symbols", false),
         build_confusable("arm64-confusable-module-names"),
         build_arm64("arm64-plain", false, false, false),
         build_arm64("arm64-proc-limits-16-rows", true, false, false),
@@ -391,7 +397,7 @@ fn explore_input(inp: &Input, susp: usize, spurious: usize, l: &mut Local) {
             let got = out.lock().unwrap().take().expect("output present");
             if got != reference {
                 let (sig, what) = describe_difference(&reference, &got);
-                violation = Some((format!("c13:nondeterministic-output:{sig}"), what, x.choices.clone()));
+                violation = Some((format!("c13:nondeterministic-output:{}{sig}", inp.tag), what, x.choices.clone()));
                 go = false;
             }
         }
@@ -428,7 +434,7 @@ fn delay_vectors(inp: &Input, k: usize, n: usize, l: &mut Local) {
         let got = render(&st);
         if got != reference {
             let (sig, what) = describe_difference(&reference, &got);
-            l.violation(format!("c13:nondeterministic-output:{sig}"), what, json!({"input": inp.name, "delay_vector": delays, "executor": "poll-to-completion"}));
+            l.violation(format!("c13:nondeterministic-output:{}{sig}", inp.tag), what, json!({"input": inp.name, "delay_vector": delays, "executor": "poll-to-completion"}));
         }
     }
     l.outcome(&format!("{}: delay vectors", inp.name));
@@ -468,7 +474,7 @@ fn repeated_runs(inp: &Input, reps: usize, l: &mut Local) {
         l.eval();
         if got.0 != reference {
             let (sig, what) = describe_difference(&reference, &got.0);
-            l.violation(format!("c13:nondeterministic-output:depends-on-earlier-reports:{sig}"), format!("the report differs when a 32-bit report was printed earlier on the same thread: {what}"), json!({"input": inp.name}));
+            l.violation(format!("c13:nondeterministic-output:depends-on-earlier-reports:{}{sig}", inp.tag), format!("the report differs when a 32-bit report was printed earlier on the same thread: {what}"), json!({"input": inp.name}));
         }
         if !got.1 {
             l.violation("c13:nondeterministic-output:depends-on-earlier-reports:32-bit-report", "a 32-bit report printed after a 64-bit one differs from the same report printed first", json!({"input": inp.name}));
@@ -485,7 +491,7 @@ fn repeated_runs(inp: &Input, reps: usize, l: &mut Local) {
         distinct.insert(hash_of(&got));
         if got != reference {
             let (sig, what) = describe_difference(&reference, &got);
-            l.violation(format!("c13:nondeterministic-output:{sig}"), what, json!({"input": inp.name, "run": r, "executor": if r % 2 == 0 { "poll-to-completion" } else { "tokio multi-thread (free-running)" }}));
+            l.violation(format!("c13:nondeterministic-output:{}{sig}", inp.tag), what, json!({"input": inp.name, "run": r, "executor": if r % 2 == 0 { "poll-to-completion" } else { "tokio multi-thread (free-running)" }}));
         }
     }
     l.distinct(&(inp.name, "repeats"));
